@@ -21,6 +21,8 @@ TRUSTED = ['evaluation counter installed by wrapping pyparsing.ParserElement._pa
 
 PROBE = r'''
 import json, sys, time
+sys.setrecursionlimit(50000)   # the counting wrapper adds one Python frame per element: without this the probe itself
+                               # hits the interpreter's 1000-frame limit at template depth 48 (the limit is a C01 finding)
 import pyparsing as pp
 import gtwrap.interface_parser as ip
 from collections import Counter
